@@ -36,7 +36,7 @@ impl<'a, R: std::io::Read, RW: std::io::Read + std::io::Write> std::io::Read
     fn read(&mut self, buf: &mut [u8]) -> Result<usize, std::io::Error> {
         if let Some(ref mut reader) = self.reader {
             match reader.read(buf) {
-                Ok(0) => {
+                Ok(0) if !buf.is_empty() => {
                     // EOF
                     self.reader = None;
                 }
